@@ -128,3 +128,142 @@ Theorem C02_source_tie_frame : forall lat lon,
    (m00 m, m01 m, m02 m, m10 m, m11 m, m12 m, m20 m, m21 m, m22 m)).
 Proof. exact tie_enuFrame. Qed.
 Print Assumptions C02_source_tie_frame.
+
+(* ==== SOURCE TIE OF THE STATE MACHINE (translator translate/tr_C02_enu.py, library translate/imptrans.py) ====
+   Every method of ENUConverter — both constructors, setAnchor, reset, isAnchored, getAnchor, getEnuToEcefTransform, the
+   four toECEF / toWGS84 overloads, the three toENU overloads — is regenerated on every run from the clang AST of the
+   current src/geodesy/ENUConverter.cpp as a transformer st_<m> of the fields (enu2ecef_, isAnchored_, wgs84Anchor_)
+   (gen/SrcEnu.v; Eigen vocabulary: EnuVocab.v); the class must have exactly the model's four data members.  The theorems
+   below say that these transformers ARE the steps of EnuModel.v (definitions of fields_of, state_of_fields, src_step,
+   src_run, src_init, src_init_at, ecefF = toECEF on GRS80, wgsF = toWGS84 on GRS80: SrcTieC02State.v), so the
+   operation-sequence theorems above hold of the code as written. *)
+From Romea Require Import EnuVocab SrcTieC02State.
+From Romea.gen Require Import SrcEnu.
+
+(* constructors: ENUConverter() leaves the model's initial state whatever was in memory; ENUConverter(anchor) is
+   ENUConverter() followed by setAnchor(anchor) *)
+Theorem C02_source_tie_constructors : forall T (N : NumOps T) F1 F2 st g,
+  st_ctor_default N F1 F2 st = fields_of (enu_init N) /\
+  st_ctor_anchor N F1 F2 g st = st_setAnchor N F1 F2 g (fields_of (enu_init N)).
+Proof. intros T N F1 F2 st g. exact (conj (tie_ctor_default N F1 F2 st) (tie_ctor_anchor N F1 F2 g st)). Qed.
+Print Assumptions C02_source_tie_constructors.
+
+(* reset(): the model's reset, and field for field what the default constructor leaves (this is the clause the repaired
+   defect violated: a reset() that keeps wgs84Anchor_ or the flag does not satisfy it) *)
+Theorem C02_source_tie_reset : forall T (N : NumOps T) F1 F2 s st',
+  st_reset N F1 F2 (fields_of s) = fields_of (reset N s) /\
+  st_reset N F1 F2 (fields_of s) = st_ctor_default N F1 F2 st'.
+Proof. intros T N F1 F2 s st'. exact (conj (tie_reset N F1 F2 s) (tie_reset_is_ctor_default N F1 F2 (fields_of s) st')). Qed.
+Print Assumptions C02_source_tie_reset.
+
+(* setAnchor, every dictionary and whatever the 3x3 block is: nothing of the state before survives (st0 is arbitrary),
+   translation = toECEF of the new anchor, flag set, anchor stored *)
+Theorem C02_source_tie_setAnchor_shape : forall T (N : NumOps T) F1 F2 g st st0,
+  st_setAnchor N F1 F2 g st = ((aff_linear (fst (fst (st_setAnchor N F1 F2 g st0))), F1 g), true, g).
+Proof. intros T N. exact (tie_setAnchor_shape N). Qed.
+Print Assumptions C02_source_tie_setAnchor_shape.
+
+(* setAnchor over the reals: the model's set_anchor (frame_rotation, translation toECEF(GRS80) of the anchor) *)
+Theorem C02_source_tie_setAnchor : forall fuel s g,
+  state_of_fields (st_setAnchor ROps (toECEF ROps (grs80 ROps)) (toWGS84 ROps fuel (grs80 ROps)) g (fields_of s))
+  = set_anchor ROps s g.
+Proof. exact tie_setAnchor_R. Qed.
+Print Assumptions C02_source_tie_setAnchor.
+
+(* the accessors return the fields and leave the state alone *)
+Theorem C02_source_tie_accessors : forall T (N : NumOps T) F1 F2 s,
+  st_isAnchored N F1 F2 (fields_of s) = (fields_of s, s_anchored s) /\
+  st_getAnchor N F1 F2 (fields_of s) = (fields_of s, s_anchor s) /\
+  st_getEnuToEcefTransform N F1 F2 (fields_of s) = (fields_of s, (s_rot s, s_trans s)).
+Proof.
+  intros T N F1 F2 s.
+  exact (conj (tie_isAnchored N F1 F2 s) (conj (tie_getAnchor N F1 F2 s) (tie_getEnuToEcefTransform N F1 F2 s))).
+Qed.
+Print Assumptions C02_source_tie_accessors.
+
+(* toECEF applies the transform, toENU(ecef) its inverse (of the CURRENT fields: no cached copy), toWGS84 is the ECEF
+   converter's toWGS84 after toECEF; none changes the state *)
+Theorem C02_source_tie_conversions : forall T (N : NumOps T) F1 F2 s v,
+  st_toECEF_vec N F1 F2 v (fields_of s) = (fields_of s, enu_to_ecef N s v) /\
+  st_toENU_ecef N F1 F2 v (fields_of s) = (fields_of s, ecef_to_enu N s v) /\
+  st_toWGS84_vec N F1 F2 v (fields_of s) =
+    match F2 (enu_to_ecef N s v) with Some g => Some (fields_of s, g) | None => None end.
+Proof.
+  intros T N F1 F2 s v.
+  exact (conj (tie_toECEF_vec N F1 F2 s v) (conj (tie_toENU_ecef N F1 F2 s v) (tie_toWGS84_vec N F1 F2 s v))).
+Qed.
+Print Assumptions C02_source_tie_conversions.
+
+(* the three-scalar overloads hand (x, y, z), in this order, to the vector forms *)
+Theorem C02_source_tie_three_scalar_overloads : forall T (N : NumOps T) F1 F2 x y z st,
+  st_toECEF_xyz N F1 F2 x y z st = st_toECEF_vec N F1 F2 (mkV3 x y z) st /\
+  st_toWGS84_xyz N F1 F2 x y z st = st_toWGS84_vec N F1 F2 (mkV3 x y z) st.
+Proof. intros T N F1 F2 x y z st. exact (conj (tie_toECEF_xyz N F1 F2 x y z st) (tie_toWGS84_xyz N F1 F2 x y z st)). Qed.
+Print Assumptions C02_source_tie_three_scalar_overloads.
+
+(* toENU(geodetic) anchors first iff not anchored and then converts in the current frame; toENU(WGS84) is toENU of the point at
+   the altitude of the CURRENT anchor — every dictionary, relative to the source's own setAnchor *)
+Theorem C02_source_tie_auto_anchoring : forall T (N : NumOps T) fuel s g lat lon,
+  lift (st_toENU_geo N (ecefF N) (wgsF N fuel) g (fields_of s)) OutVec = to_enu_geo_sa N (src_set_anchor N fuel) s g /\
+  lift (st_toENU_wgs N (ecefF N) (wgsF N fuel) (mkWgs lat lon) (fields_of s)) OutVec =
+    to_enu_geo_sa N (src_set_anchor N fuel) s (mkGeo lat lon (g_alt (s_anchor s))).
+Proof. intros T N fuel s g lat lon. exact (conj (tie_toENU_geo N fuel s g) (tie_toENU_wgs N fuel s lat lon)). Qed.
+Print Assumptions C02_source_tie_auto_anchoring.
+
+(* ALL OPERATIONS: the step function assembled from the generated transformers is the model's step function *)
+Theorem C02_source_tie_state_machine : forall fuel s o, src_step ROps fuel s o = step ROps fuel s o.
+Proof. exact tie_step_R. Qed.
+Print Assumptions C02_source_tie_state_machine.
+
+(* ... for every numeric dictionary (the executed binary64 one included) in which the 3x3 block of the source's setAnchor
+   is the model's frame_rotation [setAnchor_tied]; the reals are such a dictionary (Example below) *)
+Theorem C02_source_tie_state_machine_every_dictionary : forall T (N : NumOps T) fuel,
+  setAnchor_tied N fuel -> forall s o, src_step N fuel s o = step N fuel s o.
+Proof. intros T N. exact (tie_step N). Qed.
+Print Assumptions C02_source_tie_state_machine_every_dictionary.
+
+Example C02_setAnchor_tied_over_the_reals : forall fuel, setAnchor_tied ROps fuel.
+Proof. exact tie_setAnchor_R. Qed.
+
+(* ... hence every run of the source's step function is the model's run, from the source's constructors *)
+Theorem C02_source_tie_runs : forall fuel ops s g,
+  src_run ROps fuel s ops = run ROps fuel s ops /\
+  src_init ROps fuel = enu_init ROps /\ src_init_at ROps fuel g = set_anchor ROps (enu_init ROps) g.
+Proof. intros fuel ops s g. exact (conj (tie_run_R fuel s ops) (conj (tie_init ROps fuel) (tie_init_at_R fuel g))). Qed.
+Print Assumptions C02_source_tie_runs.
+
+(* ---- the operation-sequence theorems, stated of the code as written ---- *)
+Theorem C02_source_state_determined_by_last_anchor : forall fuel ops a,
+  fst (src_run ROps fuel (state_of ROps a) ops) = state_of ROps (abs_run ROps a ops).
+Proof. exact src_run_state_R. Qed.
+Print Assumptions C02_source_state_determined_by_last_anchor.
+
+Theorem C02_source_reset_equals_init : forall fuel ops rest,
+  src_run ROps fuel (fst (src_run ROps fuel (src_init ROps fuel) (ops ++ [OpReset]))) rest =
+  src_run ROps fuel (src_init ROps fuel) rest.
+Proof. exact src_reset_after_any_history_R. Qed.
+Print Assumptions C02_source_reset_equals_init.
+
+Theorem C02_source_reanchoring_replaces_frame : forall fuel ops g,
+  fst (src_run ROps fuel (src_init ROps fuel) (ops ++ [OpSetAnchor g])) = src_init_at ROps fuel g.
+Proof. exact src_set_anchor_after_any_history_R. Qed.
+Print Assumptions C02_source_reanchoring_replaces_frame.
+
+Theorem C02_source_first_conversion_anchors : forall fuel ops g, abs_run ROps None ops = None ->
+  fst (src_run ROps fuel (src_init ROps fuel) (ops ++ [OpToEnuGeo g])) = src_init_at ROps fuel g /\
+  snd (src_run ROps fuel (src_init ROps fuel) (ops ++ [OpToEnuGeo g])) =
+  snd (src_run ROps fuel (src_init ROps fuel) ops) ++ [OutVec (mkV3 0 0 0)].
+Proof. exact src_first_conversion_R. Qed.
+Print Assumptions C02_source_first_conversion_anchors.
+
+(* the same for every dictionary satisfying [setAnchor_tied] *)
+Theorem C02_source_histories_every_dictionary : forall T (N : NumOps T) fuel, setAnchor_tied N fuel -> forall ops rest g a,
+  fst (src_run N fuel (state_of N a) ops) = state_of N (abs_run N a ops) /\
+  src_run N fuel (fst (src_run N fuel (src_init N fuel) (ops ++ [OpReset]))) rest = src_run N fuel (src_init N fuel) rest /\
+  fst (src_run N fuel (src_init N fuel) (ops ++ [OpSetAnchor g])) = src_init_at N fuel g.
+Proof.
+  intros T N fuel H ops rest g a.
+  exact (conj (src_run_state N fuel H ops a)
+              (conj (src_reset_after_any_history N fuel H ops rest) (src_set_anchor_after_any_history N fuel H ops g))).
+Qed.
+Print Assumptions C02_source_histories_every_dictionary.
